@@ -34,6 +34,9 @@ def build_op(spec):
             return op
         return OPS[kind](spec["step"])
     if kind in ("iso", "aniso", "shape"):
+        if spec.get("sibling_mask_edit"):
+            sibling = OPS[kind](0.05)            # an unrelated operation with the default mask ...
+            sibling.mask[2, :] = False             # ... is edited in place by its owner: no other operation may notice
         mask = None if spec.get("mask") is None else np.array(spec["mask"], dtype=bool)
         if late:
             op = OPS[kind](spec["max_value"] * 2.0 + 0.01, None if mask is None else ~mask)
